@@ -219,7 +219,7 @@ COMMON_ASSUMPTIONS = [
     'A1 pointer/memory model of prelude/vbase.vrs: address = integer, provenance ignored, memory reachable through the given slices is immutable during a call',
     'A4 little-endian composition of multi-byte unaligned loads; usize is 64 bit in the main/aarch64/wasm32/other units and 32 bit in other32',
     'A5 std specs assumed in the prelude (assume_specification items listed in trusted_base)',
-    'A7 the extractor rules X0-X16 (tool/xform.py, tool/units.py) preserve semantics; Verus, Z3, Kani, CBMC are trusted',
+    'A7 the extractor rules X0-X17 (tool/xform.py, tool/units.py) preserve semantics; Verus, Z3, Kani, CBMC are trusted',
 ]
 
 TITLES = {}
